@@ -17,7 +17,7 @@ import time
 import traceback
 
 VERIF = os.path.dirname(os.path.dirname(os.path.abspath(__file__)))
-REPO_SRC = "/repo/src"
+REPO_SRC = os.environ.get("VERIF_REPO_SRC", "/repo/src")  # override only for development / mutant runs
 PY = "/venv/bin/python"
 
 TIERS = ("quick", "thorough")
